@@ -3,7 +3,7 @@
 //! Exposes the crate-private [`crate::circuit::CircuitBuilder`] so that sequences of gate
 //! requests can be driven directly, without going through the language front end.
 
-use std::collections::HashMap;
+use std::collections::HashMap as StdHashMap;
 
 use crate::{
     circuit::{Circuit, CircuitBuilder, CircuitBuilderOptions, GateIndex, PanicReason},
@@ -30,7 +30,7 @@ impl Builder {
     pub fn new(input_gates: Vec<usize>, cache_gates: bool) -> Self {
         Self(CircuitBuilder::new(
             input_gates,
-            HashMap::new(),
+            StdHashMap::new().into_iter().collect(),
             CircuitBuilderOptions { cache_gates },
         ))
     }
@@ -140,5 +140,411 @@ impl Builder {
     }
     pub fn build(self, output_gates: Vec<GateIndex>) -> Circuit {
         self.0.build(output_gates)
+    }
+}
+
+// ---------------------------------------------------------------------------------------------
+// Hook H2: hash maps / sets whose iteration order is an environment answer owned by the harness.
+//
+// Every map has an identity (creation counter, shared by clones) and a generation (bumped by each
+// modification). The first iteration of a map in a given (identity, generation) is a choice
+// point; the harness can assign a permutation to any choice point, all other iterations use the
+// insertion order. This models what std's randomly seeded maps can do: one map in one state
+// always iterates in one order, different maps / states are independent.
+
+use std::borrow::Borrow;
+use std::cell::RefCell;
+use std::hash::Hash;
+
+/// How the entries of one map state are permuted relative to their insertion order.
+#[derive(Debug, Clone, Copy, PartialEq, Eq)]
+pub enum Perm {
+    /// Reversed insertion order.
+    Reverse,
+    /// Rotated left by the given amount.
+    Rotate(usize),
+    /// The k-th permutation in lexicographic order (only sensible for few entries).
+    Nth(usize),
+}
+
+/// One iteration event, as logged while running.
+#[derive(Debug, Clone, Copy, PartialEq, Eq, Hash)]
+pub struct IterEvent {
+    /// Identity of the iterated map.
+    pub id: u64,
+    /// Generation of the iterated map.
+    pub generation: u64,
+    /// Number of entries.
+    pub len: usize,
+}
+
+#[derive(Default)]
+struct Controller {
+    next_id: u64,
+    log: Vec<IterEvent>,
+    schedule: Vec<((u64, u64), Perm)>,
+}
+
+thread_local! {
+    static CONTROLLER: RefCell<Controller> = RefCell::new(Controller::default());
+}
+
+/// Starts a run: map identities restart at 0, the event log is cleared and the given
+/// permutations are installed for their (identity, generation) choice points.
+pub fn begin_run(schedule: Vec<((u64, u64), Perm)>) {
+    CONTROLLER.with(|c| {
+        let mut c = c.borrow_mut();
+        c.next_id = 0;
+        c.log.clear();
+        c.schedule = schedule;
+    });
+}
+
+/// Ends a run, returning the iteration events in the order in which they happened.
+pub fn end_run() -> Vec<IterEvent> {
+    CONTROLLER.with(|c| {
+        let mut c = c.borrow_mut();
+        c.schedule.clear();
+        std::mem::take(&mut c.log)
+    })
+}
+
+fn new_id() -> u64 {
+    CONTROLLER.with(|c| {
+        let mut c = c.borrow_mut();
+        c.next_id += 1;
+        c.next_id - 1
+    })
+}
+
+fn order_for(id: u64, generation: u64, len: usize) -> Vec<usize> {
+    let perm = CONTROLLER.with(|c| {
+        let mut c = c.borrow_mut();
+        c.log.push(IterEvent {
+            id,
+            generation,
+            len,
+        });
+        c.schedule
+            .iter()
+            .find(|(k, _)| *k == (id, generation))
+            .map(|(_, p)| *p)
+    });
+    let mut idx: Vec<usize> = (0..len).collect();
+    match perm {
+        None => {}
+        Some(Perm::Reverse) => idx.reverse(),
+        Some(Perm::Rotate(k)) => {
+            if len > 0 {
+                idx.rotate_left(k % len)
+            }
+        }
+        Some(Perm::Nth(mut k)) => {
+            // factorial number system
+            let mut pool: Vec<usize> = (0..len).collect();
+            let mut fact: Vec<usize> = vec![1; len + 1];
+            for i in 1..=len {
+                fact[i] = fact[i - 1].saturating_mul(i);
+            }
+            idx.clear();
+            for i in (0..len).rev() {
+                let f = fact[i];
+                let d = (k / f).min(pool.len() - 1);
+                k %= f;
+                idx.push(pool.remove(d));
+            }
+        }
+    }
+    idx
+}
+
+/// A hash map whose iteration order is chosen by the verification harness.
+#[derive(Clone)]
+pub struct HashMap<K, V> {
+    inner: std::collections::HashMap<K, (V, usize)>,
+    /// insertion order, with tombstones
+    order: Vec<Option<K>>,
+    id: u64,
+    generation: u64,
+}
+
+#[allow(missing_docs)]
+impl<K: Eq + Hash + Clone, V> HashMap<K, V> {
+    pub fn new() -> Self {
+        Self {
+            inner: std::collections::HashMap::new(),
+            order: vec![],
+            id: new_id(),
+            generation: 0,
+        }
+    }
+    pub fn with_capacity(n: usize) -> Self {
+        Self {
+            inner: std::collections::HashMap::with_capacity(n),
+            order: Vec::with_capacity(n),
+            id: new_id(),
+            generation: 0,
+        }
+    }
+    pub fn insert(&mut self, k: K, v: V) -> Option<V> {
+        self.generation += 1;
+        match self.inner.get_mut(&k) {
+            Some(slot) => Some(std::mem::replace(&mut slot.0, v)),
+            None => {
+                self.order.push(Some(k.clone()));
+                self.inner.insert(k, (v, self.order.len() - 1));
+                None
+            }
+        }
+    }
+    pub fn get<Q: ?Sized + Hash + Eq>(&self, k: &Q) -> Option<&V>
+    where
+        K: Borrow<Q>,
+    {
+        self.inner.get(k).map(|(v, _)| v)
+    }
+    pub fn get_mut<Q: ?Sized + Hash + Eq>(&mut self, k: &Q) -> Option<&mut V>
+    where
+        K: Borrow<Q>,
+    {
+        self.inner.get_mut(k).map(|(v, _)| v)
+    }
+    pub fn contains_key<Q: ?Sized + Hash + Eq>(&self, k: &Q) -> bool
+    where
+        K: Borrow<Q>,
+    {
+        self.inner.contains_key(k)
+    }
+    pub fn remove<Q: ?Sized + Hash + Eq>(&mut self, k: &Q) -> Option<V>
+    where
+        K: Borrow<Q>,
+    {
+        self.generation += 1;
+        match self.inner.remove(k) {
+            Some((v, pos)) => {
+                self.order[pos] = None;
+                Some(v)
+            }
+            None => None,
+        }
+    }
+    pub fn len(&self) -> usize {
+        self.inner.len()
+    }
+    pub fn is_empty(&self) -> bool {
+        self.inner.is_empty()
+    }
+    fn ordered_keys(&self) -> Vec<&K> {
+        let live: Vec<&K> = self.order.iter().filter_map(|k| k.as_ref()).collect();
+        order_for(self.id, self.generation, live.len())
+            .into_iter()
+            .map(|i| live[i])
+            .collect()
+    }
+    pub fn iter(&self) -> std::vec::IntoIter<(&K, &V)> {
+        self.ordered_keys()
+            .into_iter()
+            .map(|k| (k, &self.inner[k].0))
+            .collect::<Vec<_>>()
+            .into_iter()
+    }
+    pub fn keys(&self) -> std::vec::IntoIter<&K> {
+        self.ordered_keys().into_iter()
+    }
+    pub fn values(&self) -> std::vec::IntoIter<&V> {
+        self.ordered_keys()
+            .into_iter()
+            .map(|k| &self.inner[k].0)
+            .collect::<Vec<_>>()
+            .into_iter()
+    }
+    pub fn entry(&mut self, k: K) -> Entry<'_, K, V> {
+        Entry { map: self, key: k }
+    }
+}
+
+/// A view into a single entry of a [`HashMap`].
+pub struct Entry<'a, K, V> {
+    map: &'a mut HashMap<K, V>,
+    key: K,
+}
+
+#[allow(missing_docs)]
+impl<'a, K: Eq + Hash + Clone, V> Entry<'a, K, V> {
+    pub fn or_insert(self, default: V) -> &'a mut V {
+        if !self.map.contains_key(&self.key) {
+            self.map.insert(self.key.clone(), default);
+        }
+        self.map.get_mut(&self.key).unwrap()
+    }
+    pub fn or_default(self) -> &'a mut V
+    where
+        V: Default,
+    {
+        self.or_insert(V::default())
+    }
+}
+
+impl<K: Eq + Hash + Clone, V> Default for HashMap<K, V> {
+    fn default() -> Self {
+        Self::new()
+    }
+}
+
+impl<K: Eq + Hash + Clone + std::fmt::Debug, V: std::fmt::Debug> std::fmt::Debug for HashMap<K, V> {
+    fn fmt(&self, f: &mut std::fmt::Formatter<'_>) -> std::fmt::Result {
+        // insertion order, without consulting the controller
+        f.debug_map()
+            .entries(
+                self.order
+                    .iter()
+                    .filter_map(|k| k.as_ref())
+                    .map(|k| (k, &self.inner[k].0)),
+            )
+            .finish()
+    }
+}
+
+impl<K: Eq + Hash, V: PartialEq> PartialEq for HashMap<K, V> {
+    fn eq(&self, other: &Self) -> bool {
+        self.inner.len() == other.inner.len()
+            && self
+                .inner
+                .iter()
+                .all(|(k, (v, _))| other.inner.get(k).map(|(w, _)| v == w).unwrap_or(false))
+    }
+}
+
+impl<K: Eq + Hash, V: Eq> Eq for HashMap<K, V> {}
+
+impl<K: Eq + Hash + Clone, V> FromIterator<(K, V)> for HashMap<K, V> {
+    fn from_iter<I: IntoIterator<Item = (K, V)>>(iter: I) -> Self {
+        let mut m = Self::new();
+        for (k, v) in iter {
+            m.insert(k, v);
+        }
+        m
+    }
+}
+
+impl<K: Eq + Hash + Clone, V> Extend<(K, V)> for HashMap<K, V> {
+    fn extend<I: IntoIterator<Item = (K, V)>>(&mut self, iter: I) {
+        for (k, v) in iter {
+            self.insert(k, v);
+        }
+    }
+}
+
+impl<K: Eq + Hash + Clone, V> IntoIterator for HashMap<K, V> {
+    type Item = (K, V);
+    type IntoIter = std::vec::IntoIter<(K, V)>;
+    fn into_iter(mut self) -> Self::IntoIter {
+        let keys: Vec<K> = self.ordered_keys().into_iter().cloned().collect();
+        keys.into_iter()
+            .map(|k| {
+                let (v, _) = self.inner.remove(&k).unwrap();
+                (k, v)
+            })
+            .collect::<Vec<_>>()
+            .into_iter()
+    }
+}
+
+impl<'a, K: Eq + Hash + Clone, V> IntoIterator for &'a HashMap<K, V> {
+    type Item = (&'a K, &'a V);
+    type IntoIter = std::vec::IntoIter<(&'a K, &'a V)>;
+    fn into_iter(self) -> Self::IntoIter {
+        self.iter()
+    }
+}
+
+impl<K: Eq + Hash + Clone + Borrow<Q>, Q: ?Sized + Hash + Eq, V> std::ops::Index<&Q>
+    for HashMap<K, V>
+{
+    type Output = V;
+    fn index(&self, k: &Q) -> &V {
+        self.get(k).expect("no entry found for key")
+    }
+}
+
+impl<K: Eq + Hash + Clone + Ord, V> From<std::collections::HashMap<K, V>> for HashMap<K, V> {
+    fn from(m: std::collections::HashMap<K, V>) -> Self {
+        let mut entries: Vec<(K, V)> = m.into_iter().collect();
+        entries.sort_by(|a, b| a.0.cmp(&b.0));
+        entries.into_iter().collect()
+    }
+}
+
+/// A hash set whose iteration order is chosen by the verification harness.
+#[derive(Clone, Debug, Default, PartialEq, Eq)]
+pub struct HashSet<T: Eq + Hash + Clone>(HashMap<T, ()>);
+
+#[allow(missing_docs)]
+impl<T: Eq + Hash + Clone> HashSet<T> {
+    pub fn new() -> Self {
+        Self(HashMap::new())
+    }
+    pub fn with_capacity(n: usize) -> Self {
+        Self(HashMap::with_capacity(n))
+    }
+    pub fn insert(&mut self, t: T) -> bool {
+        self.0.insert(t, ()).is_none()
+    }
+    pub fn contains<Q: ?Sized + Hash + Eq>(&self, t: &Q) -> bool
+    where
+        T: Borrow<Q>,
+    {
+        self.0.contains_key(t)
+    }
+    pub fn remove<Q: ?Sized + Hash + Eq>(&mut self, t: &Q) -> bool
+    where
+        T: Borrow<Q>,
+    {
+        self.0.remove(t).is_some()
+    }
+    pub fn len(&self) -> usize {
+        self.0.len()
+    }
+    pub fn is_empty(&self) -> bool {
+        self.0.is_empty()
+    }
+    pub fn iter(&self) -> std::vec::IntoIter<&T> {
+        self.0.keys()
+    }
+}
+
+impl<T: Eq + Hash + Clone> Extend<T> for HashSet<T> {
+    fn extend<I: IntoIterator<Item = T>>(&mut self, iter: I) {
+        for t in iter {
+            self.insert(t);
+        }
+    }
+}
+
+impl<T: Eq + Hash + Clone> FromIterator<T> for HashSet<T> {
+    fn from_iter<I: IntoIterator<Item = T>>(iter: I) -> Self {
+        let mut s = Self::new();
+        s.extend(iter);
+        s
+    }
+}
+
+impl<T: Eq + Hash + Clone> IntoIterator for HashSet<T> {
+    type Item = T;
+    type IntoIter = std::vec::IntoIter<T>;
+    fn into_iter(self) -> Self::IntoIter {
+        self.0
+            .into_iter()
+            .map(|(t, _)| t)
+            .collect::<Vec<_>>()
+            .into_iter()
+    }
+}
+
+impl<'a, T: Eq + Hash + Clone> IntoIterator for &'a HashSet<T> {
+    type Item = &'a T;
+    type IntoIter = std::vec::IntoIter<&'a T>;
+    fn into_iter(self) -> Self::IntoIter {
+        self.iter()
     }
 }
